@@ -1,5 +1,6 @@
 import TunnoxModel.Spec.C01
 import TunnoxModel.Proofs.C01
+import TunnoxModel.Proofs.C01Rej
 /-!
 # C01 — packet framing round-trips however the transport chunks the bytes
 
@@ -275,5 +276,51 @@ example : ∀ p ∈ samplePkts, WF toyCodec p := by
 example :
     holds samplePkts (readAll toyCodec 10 ⟨(encodeAll toyCodec samplePkts).map (fun b => [b]), .eof⟩) = true := by
   decide
+
+/-! ### A packet the reader rejects leaves the stream aligned -/
+
+/-- **Alignment after a rejected packet** (wire level): after any well-formed packets, a frame whose type byte
+carries the `0x80` flag (not a heartbeat) and whose declared length is within the cap is consumed EXACTLY —
+type byte, length field and body — before the reader reports the rejection, whatever follows it and however
+the transport cuts the stream: the packets before it are decoded and the bytes after it are all still unread. -/
+theorem C01_rejected_aligned (c : Codec) (hrt : c.RT) (pre : List Pkt) (hwf : ∀ p ∈ pre, WF c p)
+    (t : Nat) (ht : t < 256) (hr : rejected t = true) (body : Bytes)
+    (hb : body.length ≤ constants.MaxPacketBodySize) (rest : Bytes)
+    (chunks : List Bytes) (tail : Tail) (hne : ∀ ch ∈ chunks, ch ≠ [])
+    (hflat : chunks.flatten = encodeAll c pre ++ (frame t body ++ rest)) (k : Nat) :
+    readAll c (pre.length + (k + 1)) ⟨chunks, tail⟩ = ⟨pre.map norm, .encrypted, rest⟩ := by
+  have h := readAll_flat c (pre.length + (k + 1)) ⟨chunks, tail⟩ hne
+  simp only [Src.flat] at h
+  rw [h, hflat, parseAll_encodeAll_append c hrt pre hwf (k + 1)]
+  simp [parseAll, parse_rejected c t ht hr body hb rest]
+
+/-- **The same for a written sequence**: the writer is handed well-formed packets, then one whose type carries
+the flag, then ANY further packets; the observation of the reader satisfies `holdsSeq` — the predicate the
+harness applies to such cases — for every chunking. -/
+theorem C01_seq_main (c : Codec) (hrt : c.RT) (pre : List Pkt) (hwf : ∀ p ∈ pre, WF c p)
+    (p : Pkt) (hty : p.ty < 256) (hr : rejected (wireType p) = true)
+    (hb : (wireBody c p).length ≤ constants.MaxPacketBodySize) (post : List Pkt)
+    (chunks : List Bytes) (tail : Tail) (hne : ∀ ch ∈ chunks, ch ≠ [])
+    (hflat : chunks.flatten = encodeAll c (pre ++ p :: post)) (k : Nat) :
+    holdsSeq c (pre ++ p :: post) (readAll c (pre.length + (k + 1)) ⟨chunks, tail⟩) = true := by
+  have hh : packet.Type.IsHeartbeat (wireType p) = false := by
+    simp only [rejected, Bool.and_eq_true, Bool.not_eq_true'] at hr; exact hr.2
+  have hfl : chunks.flatten = encodeAll c pre ++ (frame (wireType p) (wireBody c p) ++ encodeAll c post) := by
+    rw [hflat, ← encode_eq_frame c p hh]; simp [encodeAll]
+  rw [C01_rejected_aligned c hrt pre hwf (wireType p) (wireType_lt_256 p hty) hr (wireBody c p) hb
+    (encodeAll c post) chunks tail hne hfl k]
+  obtain ⟨hd, htk⟩ := split_at_rejected c pre hwf p hr post
+  simp [holdsSeq, hd, htk]
+
+/-- Non-vacuity: a handshake, an encrypted-flag tunnel-data packet and a trailing heartbeat, cut into single
+bytes: the handshake is decoded, the rejection is reported, and exactly the heartbeat's byte is left. -/
+example :
+    holdsSeq toyCodec [⟨1, [7], false⟩, ⟨0x80 ||| 0x22, [1, 2, 3], false⟩, ⟨3, [], false⟩]
+      (readAll toyCodec 9 ⟨(encodeAll toyCodec [⟨1, [7], false⟩, ⟨0x80 ||| 0x22, [1, 2, 3], false⟩, ⟨3, [], false⟩]).map ([·]), .eof⟩)
+      = true := by decide
+/-- …and an observation in which the reader stopped after the type byte of the rejected packet does not. -/
+example :
+    holdsSeq toyCodec [⟨1, [7], false⟩, ⟨0x80 ||| 0x22, [1, 2, 3], false⟩, ⟨3, [], false⟩]
+      ⟨[(1, [7])], .encrypted, List.replicate 8 0⟩ = false := by decide
 
 end Tunnox.C01
